@@ -16,6 +16,24 @@ LEVEL_NOTE = ("Bounded: sizes/unrollings are listed in evidence.coverage.bounds.
 
 CLAIMED = {
     # id: (design section, claim text, extra note)
+    "C01": ("3 C01", "structure of the slope covariance matrix: every entry equals the independently written covariance of the two finite-difference "
+            "slopes at the geometrically projected sub-aperture positions, summed over layers, ordered x then y per sensor - for fully symbolic "
+            "geometry (telescope and sub-aperture diameters, guide-star offsets, LGS/NGS altitudes, wavelengths, layer altitude/r0/L0) and concrete "
+            "0/1 masks incl. asymmetric ones and unequal counts (1-2 sensors, <=4 sub-apertures, 1-2 layers quick; 3 sensors, 3x3 masks thorough); "
+            "symmetry (entry by entry incl. the bit-OR mirror), additivity over layers, r0^(-5/3) scaling of the real structure function with "
+            "entries linear in D and r0-free coefficients, bilinearity in the two wavelengths. NOT claimed: positive semi-definiteness as a "
+            "separate fact (it is a consequence of every entry being a covariance), float32 rounding",
+            "structure_function_vk is a cut-point (arbitrary function of squared separation, r0, L0); arguments merged only by solver-proved equalities."),
+    "C02": ("3 C02", "normal equations R C_off,off = C_on,off entry by entry for a fully symbolic symmetric covariance matrix (off-axis slopes <= 4 "
+            "quick / 6 thorough) under det != 0; duplicate on-axis sensor => R = [I 0]; the method wrapper uses n_subaps[0] and the current matrix for "
+            "any sequence of requests; end-to-end through the real, symbolically executed covariance builder for a duplicated sensor "
+            "(3 sensors x 1 sub-aperture, 2 sensors x row mask). NOT claimed: singular matrices, svd_conditioning > 0 (LAPACK truncated SVD)",
+            "pinv(rcond=0) = adjugate*dinv with dinv*det == 1; optimality from the normal equations is the textbook step."),
+    "C03": ("3 C03", "EUF mode (floating-point operations uninterpreted => term identity = bit identity): the multi-process build is the same term "
+            "array as the single-process build for every explored execution order of the per-pair tasks (all permutations up to 4 tasks, "
+            "a rotation/swap/reversal family beyond; chunked completion for imap_unordered), for 2-4 sensors (5 thorough), 1-2 layers, LGS/NGS "
+            "mixes; rebuilding on one object with the thread count toggled (programs of up to 3 builds) returns the same terms",
+            "multiprocessing.Pool assumed to meet its documented ordering contract; replay uses a controlled pool executing the witness schedule and the real Pool."),
     "C09": ("4 C09", "ft/ift/ft2/ift2 and the real variants, as exported by the module and by the package, are inverse "
             "pairs, linear, satisfy Parseval, equal the centred DFT (origin at the centre sample) and obey the shift "
             "theorem for every complex input and every delta>0 at each listed size (1-D N<=5 quick / <=8 thorough, "
